@@ -38,6 +38,7 @@ def plan(tier, seed):
         shards.append({"kind": "direct", "n": 28 if q else 260, "coin": COINS[i % len(COINS)]})
     for i in range(4 if q else 16):
         shards.append({"kind": "tap", "n": 500 if q else 5000})
+    shards.append({"kind": "suite", "label": "suite"})
     return shards
 
 
@@ -249,6 +250,11 @@ def run_tap(spec, rec):
 
 
 def run_shard(spec, rec):
+    if spec["kind"] == "suite":
+        from vmon import suite
+        rec.require("suite.sighash.legacy", "suite.sighash.segwit")
+        suite.run_suite(spec, rec, ["suite.sighash"], "suite.sighash.legacy")
+        return
     rec.require("_signature_hash", "_signature_for_hash_type_segwit", "purity_checks") if spec["kind"] == "direct" else None
     if spec["kind"] == "direct":
         run_direct(spec, rec)
